@@ -1,6 +1,9 @@
 use super::message_batch::{RetainedMessageBatch, RETAINED_BATCH_HEADER_LEN};
 use crate::streaming::models::messages::RetainedMessage;
+#[cfg(not(kani))]
 use bytes::BytesMut;
+#[cfg(kani)]
+use iggy::verif_model::bytesmut::BytesMut;
 use iggy::utils::byte_size::IggyByteSize;
 use iggy::utils::sizeable::Sizeable;
 use std::sync::Arc;
